@@ -1044,6 +1044,7 @@ def _exec_c17(trace, res):
     for oi, op in enumerate(trace["ops"]):
         rng = random.Random(op["r"])
         kind = op["op"]
+        carried = _results_by_tag(net) if base_out == "ok" else None    # result rows as they are before the operation
         J = sorted(net.junction.index.tolist())
         P = sorted(net.pipe.index.tolist()) if "pipe" in net else []
         if len(J) < 2:
@@ -1161,6 +1162,17 @@ def _exec_c17(trace, res):
                 res.violate("C17", "C17/untouched-changed:%s@%s" % (tag.split("#")[0], kind), "%s: %s -> %s" % (tag, state[tag][:120], now[tag][:120]), oi)
                 break
         state = now
+        # ---- a relabelling carries the existing result rows along with their elements ---------------------
+        if relabel_only and carried is not None:
+            now_r = _results_by_tag(net)
+            for tag in sorted(set(carried) & set(now_r)):
+                if snap.canon_deep(carried[tag]) != snap.canon_deep(now_r[tag]):
+                    res.violate("C17", "C17/result-rows-moved-to-other-element:%s@%s" % (tag.split("#")[0], kind), tag, oi)
+                    break
+            for tag in sorted(set(carried) - set(now_r)):
+                res.violate("C17", "C17/result-rows-lost:%s@%s" % (tag.split("#")[0], kind), tag, oi)
+                break
+            res.count("probe:carried-results-compared")
         # ---- physics: relabelling leaves results unchanged ---------------------------------------------
         if relabel_only and base_res is not None and not op.get("no_resolve") and rng.random() < 0.5:
             # (only every other time: a later operation must also cope with result tables that were
